@@ -129,7 +129,7 @@ func runC15(ctx *Ctx) {
 			depth := rapid.IntRange(1, 70).Draw(rt, "groupdepth")
 			nums := make([]protowire.Number, depth)
 			for i := range nums {
-				nums[i] = protowire.Number(rapid.IntRange(1, 300).Draw(rt, "gnum"))
+				nums[i] = protowire.Number(rapid.OneOf(rapid.IntRange(1, 300), rapid.SampledFrom([]int{536870911, 536870912, 2147483647})).Draw(rt, "gnum"))
 			}
 			for _, n := range nums {
 				b = protowire.AppendTag(b, n, protowire.StartGroupType)
@@ -145,7 +145,7 @@ func runC15(ctx *Ctx) {
 			}
 			b = append(b, rapid.SliceOfN(rapid.Byte(), 0, 4).Draw(rt, "suffix")...)
 		default:
-			num := protowire.Number(rapid.OneOf(rapid.IntRange(1, 20), rapid.SampledFrom([]int{15, 16, 2047, 2048, 262143, 262144, 33554431, 33554432, 536870911})).Draw(rt, "num"))
+			num := protowire.Number(rapid.OneOf(rapid.IntRange(1, 20), rapid.SampledFrom([]int{15, 16, 2047, 2048, 262143, 262144, 33554431, 33554432, 536870911, 536870912, 1 << 30, 1073754169, 2147483647})).Draw(rt, "num"))
 			b = cfg.UnknownRecordNum(rt, nil, num)
 			b = append(b, rapid.SliceOfN(rapid.Byte(), 0, 6).Draw(rt, "suffix")...)
 			switch rapid.IntRange(0, 5).Draw(rt, "mut") {
